@@ -1,6 +1,6 @@
 PROPS["C01"] = dict(
     level="exploration",
-    technique="ASan/UBSan/LSan + exception typing + allocation balance + step budget over all from-buffer entry points and all generated accessors",
+    technique="ASan/UBSan/LSan + exception typing + allocation balance + step budget + valgrind memcheck (uninitialised values) on a sample over all from-buffer entry points and all generated accessors",
     level_text="Every from-buffer entry point found in the current headers (plus the capture-level dispatch of BaseSniffer, Dot11::from_bytes, EAPOL::from_bytes, BootP, "
                "RawPDU::to<T>) is fed the unit tests' packets, API-generated packets, every truncation of them, structure-aware mutations, random strings and 64 KiB "
                "nesting/density bombs from exact-size heap blocks that are freed before the accessor sweep; every accepted packet has every public const getter of every layer "
@@ -8,6 +8,8 @@ PROPS["C01"] = dict(
                "is re-run under a basic-block step budget for termination.",
     level_note="Red-zone sanitizers miss intra-object and far out-of-bounds accesses; UBSan 'enum' check excluded (C++11: unspecified, not UB); termination = step budget 2e6+4000n blocks.",
     phases=[dict(name="asan", harness="c01.cpp", flavor="asan", mode="main", cases=dict(quick=26000, thorough=400000), watchdog=180),
+            dict(name="memcheck", harness="c01.cpp", flavor="vg", mode="main", cases=dict(quick=400, thorough=8000), watchdog=600, crash_limit=10,
+                 wrapper=["valgrind", "-q", "--error-exitcode=95", "--exit-on-first-error=yes", "--undef-value-errors=yes", "--track-origins=no", "--num-callers=20", "--max-stackframe=600000000"]),
             dict(name="steps", harness="c01.cpp", flavor="cov", mode="main", cases=dict(quick=2600, thorough=30000), watchdog=180, budget=0)],
     rule="case = (entry point, derivation of inputs: seed+all truncations | 48 mutations of an accepted seed | generated packet + mutations + truncations | 48 random strings | 64 KiB); "
          "distinct = distinct (entry point, accepted layer chain, hash of all getter values) for accepted inputs and (entry point, length) for rejected ones",
